@@ -78,7 +78,7 @@ def gnu_diff_section(rng, flag):
     try:
         open(os.path.join(d, "f.orig"), "wb").write(emit.file_bytes(a))
         open(os.path.join(d, "f"), "wb").write(emit.file_bytes(b))
-        p = subprocess.run(["diff"] + flag + ["f.orig", "f"], cwd=d, capture_output=True)
+        p = subprocess.run(["diff", "-a"] + flag + ["f.orig", "f"], cwd=d, capture_output=True)
         return dict(fmt="gnu" + "".join(flag), text=p.stdout, name="f", a=a, b=b, hs=None, ops=ops)
     finally:
         shutil.rmtree(d, ignore_errors=True)
